@@ -509,7 +509,7 @@ def make_check_C06(tier):
 # ---------------------------------------------------------------------------
 # C03: the CFG, flattened to instructions, is the control flow of the edited listing
 # ---------------------------------------------------------------------------
-TRANSFERS = ("jmp", "jcc", "call", "icall", "ijmp", "ret")
+TRANSFERS = ("jmp", "jcc", "call", "icall", "ijmp", "ret", "rcall")
 
 
 def expected_flow(sc, ls):
@@ -559,6 +559,11 @@ def expected_flow(sc, ls):
             elif it.kind == "call":
                 tgt = resolve(it.target, getattr(it, "patch", None))
                 out.add(("Call", tgt, False, True))
+                if ft is not None and tgt in atoms_by_id and atoms_by_id[tgt].func:
+                    call_sites.setdefault(atoms_by_id[tgt].func, set()).add(ft)
+            elif it.kind == "rcall":
+                tgt = resolve(it.target, getattr(it, "patch", None))
+                out.add(("Call", tgt, False, False))
                 if ft is not None and tgt in atoms_by_id and atoms_by_id[tgt].func:
                     call_sites.setdefault(atoms_by_id[tgt].func, set()).add(ft)
             elif it.kind == "ijmp":
